@@ -241,14 +241,17 @@ CHECKS = {
                        "(key,value) sequence of the logfmt record must equal the reference merge of the statement. G: the same inside a "
                        "group. L: 13..14 call-site attributes over two keys (8192+ layouts) through the real pdqsort.",
         "bounds": {"quick": "chain depth <= 2, <= 1 own attribute per logger, <= 1 context key, <= 2 call-site attributes; chain depth <= 4 with 0..1 own attributes per logger (every empty/non-empty pattern), no context key, <= 1 call-site attribute; groups of <= 3 members; 13 attributes over {a,b}",
-                   "thorough": "chain depth <= 3, <= 1 own attribute per logger, <= 1 context key, <= 3 call-site attributes; chain depth <= 4 with 0..2 own attributes; 13..15 attributes"},
+                   "thorough": "chain depth <= 3, <= 1 own attribute per logger, <= 1 context key, <= 2 call-site attributes (3 took 25 minutes alone); chain depth <= 4 with 0..2 own attributes; chains sharing one prepared attribute set; 13..15 attributes"},
         "outside": "attribute lists of 17..64 elements; observation through the colored format (C06 checks key order there on fixed lists)",
         "assumptions": ["values are distinct integers tagging their source; observation through logfmt and JSON loggers without caller field"],
         "runs": [
-            {"harness": "VH_C07", "quick": {"chain": 2, "own": 1, "ctxkeys": 1, "site": 2, "json": 1}, "thorough": {"chain": 3, "own": 1, "ctxkeys": 1, "site": 3, "json": 1},
+            {"harness": "VH_C07", "quick": {"chain": 2, "own": 1, "ctxkeys": 1, "site": 2, "json": 1}, "thorough": {"chain": 3, "own": 1, "ctxkeys": 1, "site": 2, "json": 1},
              "covers": ["C07:compared"]},
             # deep chains with empty loggers in the middle (the inherit walk must not stop at them)
             {"harness": "VH_C07", "quick": {"chain": 4, "own": 1, "ctxkeys": 0, "site": 1, "json": 0}, "thorough": {"chain": 4, "own": 2, "ctxkeys": 0, "site": 1, "json": 1},
+             "covers": ["C07:compared"]},
+            # loggers of a chain given one and the same prepared attribute set, then their own attributes
+            {"harness": "VH_C07", "quick": {"chain": 3, "own": 1, "ctxkeys": 0, "site": 1, "json": 0, "shared": 1}, "thorough": {"chain": 3, "own": 2, "ctxkeys": 0, "site": 1, "json": 1, "shared": 1},
              "covers": ["C07:compared"]},
             {"harness": "VH_C07G", "quick": {"members": 3}, "thorough": {"members": 4}, "covers": ["C07G:compared"]},
             {"harness": "VH_C07L", "quick": {"extra": 1}, "thorough": {"extra": 3}, "covers": ["C07L:compared"]},
@@ -269,7 +272,9 @@ CHECKS = {
                        "severities with and without colours; explicit call site 1, 2 or none) is written on a pristine process, then again "
                        "after a history record A (same 12 shapes, on the same or another logger in any of 4 configurations, from the same or "
                        "another call site) written under global flags that may differ from B's in the privacy or the caller bit; B's two "
-                       "payloads must be identical. Both in production and in test-process mode (error dumps).",
+                       "payloads must be identical. Both in production and in test-process mode (error dumps). E: the same through the ordinary "
+                       "entry points (Info/Warn/Error with call-site arguments, loggers with and without bound attributes, a third logger "
+                       "recycling the pools in between; a layout without time verbs makes the payloads comparable).",
         "bounds": {"quick": "stale buffer 2 bytes, stale strings 1-2 bytes, 2 stale colour values each; 3 formats x 2 UTC modes x 4 severities x 3 messages x 5 attribute lists (incl. a group last, an error, a time.Time keyed 'time' last)",
                    "thorough": "same space (covered at quick)"},
         "outside": "user marshallers that read from the PrintCtx (move off); the pooled attribute slice of logContext (its cells are never read beyond len; C08 checks what is put into that pool); histories of more than one real record (covered by the havoc form for the fields it knows); state cached in package variables keyed by call site would be warmed by the reference run of H",
@@ -278,6 +283,7 @@ CHECKS = {
             {"harness": "VH_C09", "quick": {"attrkinds": 7}, "thorough": {"attrkinds": 7}, "covers": ["C09:compared"]},
             {"harness": "VH_C09H", "quick": {"testmode": 0, "fa": 4, "fb": 3}, "thorough": {"testmode": 0, "fa": 5, "fb": 5}, "covers": ["C09H:compared"]},
             {"harness": "VH_C09H", "quick": {"testmode": 1, "fa": 4, "fb": 3}, "thorough": {"testmode": 1, "fa": 5, "fb": 5}, "covers": ["C09H:compared"]},
+            {"harness": "VH_C09E", "covers": ["C09E:compared"]},
         ],
     },
     "C10": {
@@ -409,7 +415,7 @@ CHECKS = {
         "explanation": "Goroutine interleavings are NOT explored (the engine executes one goroutine). Decided on the real code instead: the "
                        "sequential ownership discipline that makes concurrent calls independent. For every log call shape (root and child "
                        "logger with logger-level attributes including a shared Group, per-call attributes including the same Group value, "
-                       "3 formats, single/multi-line message, error values, Info and WriteThru entry points; the Group's members in every "
+                       "3 formats, single/multi-line message, error values, Info, WriteThru and the log/slog adapter's Handle (on a derived handler whose bound attribute slice has spare capacity, records with 0..2 own attributes) as entry points; the Group's members in every "
                        "order over two keys, i.e. sorted, unsorted and duplicated) the engine's write-set monitor checks that every store, "
                        "map update, copy and in-place append executed between entry and return targets memory allocated during the call "
                        "or an object checked out of a sync.Pool during it (sync/atomic stubs and the destinations' own writes exempt), "
@@ -427,7 +433,7 @@ CHECKS = {
         "assumptions": ["sync.Pool hands an object to one goroutine at a time; sync/atomic is atomic; destinations are safe for concurrent Write",
                         "monitor violations are engine observations (label suffix [engine]): their replay is the deterministic re-execution by the engine; the snapshot assertions replay natively"],
         "runs": [
-            {"harness": "VH_C08", "covers": ["C08:called", "C08:writethru"]},
+            {"harness": "VH_C08", "covers": ["C08:called", "C08:writethru", "C08:adapter"]},
         ],
     },
 }
